@@ -70,6 +70,9 @@ def run(tier):
     from . import c11
     c11._e_wrapper_direction(chk, rule="C05.e")
     _e_operator_direction(chk)
+    # the public facade binds every argument to the service parameter it is meant for (nominal swap rule, rules/common.py)
+    from . import common as _common
+    _common.facade_bindings(chk, "C05.d-facade", ['hiten.system.orbits'], floor=5)
     return chk
 
 
